@@ -734,7 +734,33 @@ def wrap_container(case, a):
     if case.get("int_ok", True) and _bits(case, 28, 3) == 0 and np.issubdtype(np.asarray(a).dtype, np.floating) and np.all(np.asarray(a) == np.round(a)) \
             and np.abs(a).max(initial=0) < 2**40:
         a = np.asarray(a).astype(np.int64)
-    return pd.DataFrame(a) if kind == "frame" else a
+    if kind != "frame":
+        return a
+    # frames carry the default index, a range index that does not start at 0 (as a slice of a longer frame), or time stamps:
+    # positions, not labels, are what every output refers to
+    n = len(a)
+    idx = [None, None, pd.RangeIndex(40, 40 + n), pd.date_range("2021-01-01", periods=n, freq="h")][_bits(case, 30, 4)]
+    return pd.DataFrame(a, index=idx)
+
+
+def failed_use(det, case, X):
+    """exception safety: in a quarter of the cases the detector first completes a fit_predict on other data and is then
+    handed data with a missing value, which it must reject; nothing of that may leak into the calls that follow"""
+    import numpy as np
+
+    if _bits(case, 34, 4) != 0:
+        return
+    other = np.asarray(X, dtype=float)[::-1] * 2.0 + 1.0
+    try:
+        det.fit_predict(wrap_container(dict(case, int_ok=False), other))
+    except Exception:
+        pass
+    bad = other.copy()
+    bad[len(bad) // 2, 0] = np.nan
+    try:
+        det.fit_predict(wrap_container(dict(case, int_ok=False), bad))
+    except Exception:
+        pass
 
 
 def fit_for(det, case, X, reps=4):
@@ -747,6 +773,7 @@ def fit_for(det, case, X, reps=4):
     import pandas as pd
 
     mode = case.get("fitmode") or ["same", "same", "other-length", "inplace"][_bits(case, 4, 4)]
+    failed_use(det, case, X)
     if mode == "other-length":
         Xf = np.vstack([X, X[::-1] * 0.5 + 1.0] * reps)  # 2*reps x the rows: fitted thresholds / penalties differ markedly
         det.fit(wrap_container(case, Xf))
